@@ -494,6 +494,26 @@ Definition udp_abort_recv (s : Z) (w : net) : net * list kc :=
   let c := post_h (u_recv_h u) [EC_ABORTED; 0; 0; 0] ++ post_h (u_wait_recv_h u) [EC_ABORTED] in
   (set_udp w s (u <| u_recv_h := None |> <| u_wait_recv_h := None |> <| u_recv_buf := [] |>), c).
 
+(* abort_send_handlers *)
+Definition udp_abort_send (v : variant) (s : Z) (w : net) : net * list kc :=
+  let u := get_udp w s in
+  match u_wait_send_h u with
+  | Some h =>
+      if d3_udp_wait_write v
+      then (set_udp w s (u <| u_wait_send_h := None |>), [KPost (TUser h [EC_ABORTED]); KCancel (tid_usend s)])
+      else (w, [KLog (TAG_FUEL, [22])])      (* the posted completion refers to the slot that is cleared next *)
+  | None => (w, [KCancel (tid_usend s)])
+  end.
+
+(* async_wait(wait_write) *)
+Definition udp_wait_write (cx : ctx) (s : Z) (h : Z) (w : net) : net * list kc :=
+  let (w, c0) := udp_abort_send (cv cx) s w in
+  let u := get_udp w s in
+  if u_sqt u / 2 <? u_next_send u - cnow cx then
+    (set_udp w s (u <| u_wait_send_h := Some h |>),
+     c0 ++ [KExpiresAt (tid_usend s) (u_next_send u + u_sqt u / 2); KAsyncWait (tid_usend s) (fun e => TUdpWritable s e)])
+  else (w, c0 ++ [KPost (TUser h [EC_OK])]).
+
 (* udp::socket::close(ec); its cancel() aborts the receive handlers *)
 Definition udp_close (cx : ctx) (s : Z) (w : net) : net * list kc :=
   let u := get_udp w s in
@@ -501,7 +521,9 @@ Definition udp_close (cx : ctx) (s : Z) (w : net) : net * list kc :=
   let w := reset_fwd w (u_fwd u) in
   let u := u <| u_bound := ep_none |> <| u_open := false |> <| u_fwd := None |> in
   let u := if d16_udp_close_clears (cv cx) then u <| u_inq := [] |> <| u_qsize := 0 |> else u in
-  udp_abort_recv s (set_udp w s u).
+  let (w, c0) := udp_abort_recv s (set_udp w s u) in
+  let (w, c1) := udp_abort_send (cv cx) s w in
+  (w, c0 ++ c1).
 
 Definition udp_open (cx : ctx) (s : Z) (v4 : bool) (w : net) : net * list kc :=
   let (w, c) := udp_close cx s w in
